@@ -132,6 +132,23 @@ def _capture():
     names = {}
     for m in RESET_MODULES:
         names[m] = set(vars(m).keys())
+    # mutable default arguments of functions / methods (a dict default is a process-wide cache)
+    import types as _types
+    for m in RESET_MODULES:
+        fns = [v for v in vars(m).values() if isinstance(v, _types.FunctionType)]
+        for c in vars(m).values():
+            if isinstance(c, type) and getattr(c, '__module__', '') == m.__name__:
+                for v in vars(c).values():
+                    f = v.__func__ if isinstance(v, (staticmethod, classmethod)) else v
+                    if isinstance(f, _types.FunctionType):
+                        fns.append(f)
+        for f in fns:
+            for i, dv in enumerate(f.__defaults__ or ()):
+                if isinstance(dv, (dict, list, set)):
+                    base[('default', f, i)] = (dv, _copy.deepcopy(dv))
+            for k, dv in (f.__kwdefaults__ or {}).items():
+                if isinstance(dv, (dict, list, set)):
+                    base[('default', f, k)] = (dv, _copy.deepcopy(dv))
     return base, names
 
 
@@ -139,7 +156,15 @@ _BASE, _NAMES = _capture()
 
 
 def restore():
-    for (owner, k), (obj, snap) in _BASE.items():
+    for key, (obj, snap) in _BASE.items():
+        if key[0] == 'default':
+            if isinstance(obj, list):
+                obj[:] = _copy.deepcopy(snap)
+            else:
+                obj.clear()
+                obj.update(_copy.deepcopy(snap))
+            continue
+        owner, k = key
         cur = vars(owner).get(k, None) if not isinstance(owner, type) else owner.__dict__.get(k, None)
         if isinstance(obj, dict):
             obj.clear()
